@@ -10,7 +10,7 @@ import numpy as np
 from . import common as cm
 from . import narrow as nw
 
-COQ_HEADER = nw.COQ_HEADER + "From D3 Require Import Checker.Narrow Checker.Deep Checker.Pen.\n"
+COQ_HEADER = nw.COQ_HEADER + "From D3 Require Import Checker.Narrow Checker.Pen.\n"
 POLY = ("box", "hull", "mesh")
 SMOOTH_BALL = ("sphere", "capsule")
 
